@@ -752,8 +752,8 @@ def cmShape (lastN : Nat) (c : ReqContent) (headers : List VH) (reorg : Nat) :
     else pure (.ok (0, total - reorg)) : M (Except Nat (Nat × Nat)))
 
 /-- `checkMatched` after the boundary check of the first last-N header -/
-def cmTail (c : ReqContent) (headers : List VH) (last : VH) (reorg sampled lastNCount : Nat) :
-    M (Except Nat (Nat × Nat × Nat)) := do
+def cmTail (lastN : Nat) (c : ReqContent) (headers : List VH) (last : VH)
+    (reorg sampled lastNCount : Nat) : M (Except Nat (Nat × Nat × Nat)) := do
   if 0 < lastNCount && (headers.getLast?.map (fun l => decide (l.number + 1 = last.number))) ≠ some true then
     return .error 400
   if sampled = 0 then
@@ -761,7 +761,9 @@ def cmTail (c : ReqContent) (headers : List VH) (last : VH) (reorg sampled lastN
       match headers[reorg]?, headers.getLast? with
       | some f, some l =>
         let l1 ← addU64 65 l.number 1
-        if f.number ≠ c.startNumber || l1 ≠ last.number then return .error 400
+        if f.number ≠ c.startNumber || l1 ≠ last.number then
+          if let some code := checkNoSampled lastN c f last.number lastNCount then
+            return .error code
       | _, _ => .error (.index 66)
     return .ok (reorg, sampled, lastNCount)
   else
@@ -791,7 +793,7 @@ def cmMid (lastN : Nat) (c : ReqContent) (headers : List VH) (last : VH) (reorg 
     match headers[total - lastNCount]? with
     | none => .error (.index 72)
     | some f => if c.boundary ≤ f.ptd then return .error 400
-  cmTail c headers last reorg sampled lastNCount
+  cmTail lastN c headers last reorg sampled lastNCount
 
 theorem checkMatched_eq (lastN : Nat) (c : ReqContent) (headers : List VH) (last : VH) :
     checkMatched lastN c headers last = (do
@@ -881,11 +883,30 @@ theorem cmShape_sum {lastN : Nat} {c : ReqContent} {headers : List VH} {reorg sc
     obtain ⟨rfl, rfl⟩ := h
     omega
 
-theorem cmTail_inv {c : ReqContent} {headers : List VH} {last : VH} {reorg sampled lnc r sc ln : Nat}
-    (h : cmTail c headers last reorg sampled lnc = .ok (.ok (r, sc, ln))) :
+/-- what passing `checkNoSampled` means: more than last-N blocks are missing, the last-N section
+is complete, no earlier block reaches the boundary, and the first requested difficulty (if any)
+lies inside the section -/
+theorem checkNoSampled_eq_none {lastN : Nat} {c : ReqContent} {f : VH} {n ln : Nat} :
+    checkNoSampled lastN c f n ln = none ↔
+      lastN < n - c.startNumber ∧ ln = lastN ∧ f.ptd < c.boundary ∧
+        ∀ d ∈ c.difficulties.head?, f.ptd < d := by
+  unfold checkNoSampled
+  cases c.difficulties with
+  | nil =>
+    by_cases h1 : lastN < n - c.startNumber <;> by_cases h2 : ln = lastN <;>
+      by_cases h3 : c.boundary ≤ f.ptd <;> simp [h1, h2, h3] <;> omega
+  | cons d t =>
+    by_cases h1 : lastN < n - c.startNumber <;> by_cases h2 : ln = lastN <;>
+      by_cases h3 : c.boundary ≤ f.ptd <;> by_cases h4 : d ≤ f.ptd <;>
+      simp [h1, h2, h3, h4] <;> omega
+
+theorem cmTail_inv {lastN : Nat} {c : ReqContent} {headers : List VH} {last : VH}
+    {reorg sampled lnc r sc ln : Nat}
+    (h : cmTail lastN c headers last reorg sampled lnc = .ok (.ok (r, sc, ln))) :
     r = reorg ∧ sc = sampled ∧ ln = lnc ∧
     (0 < ln → (headers.getLast?.map (fun l => l.number + 1)) = some last.number) ∧
-    (sc = 0 → 0 < ln → (headers[r]?.map (·.number)) = some c.startNumber) ∧
+    (sc = 0 → 0 < ln → (headers[r]?.map (·.number)) = some c.startNumber ∨
+      ∃ f, headers[r]? = some f ∧ checkNoSampled lastN c f last.number ln = none) ∧
     (sc ≠ 0 → ∃ f ftd rem, headers[r + sc]? = some f ∧ f.td = .ok ftd ∧
       checkMatched.matchLoop ((headers.drop r).take sc) (c.difficulties.takeWhile (· < ftd))
         = .ok (some rem) ∧
@@ -911,13 +932,24 @@ theorem cmTail_inv {c : ReqContent} {headers : List VH} {last : VH} {reorg sampl
         simp only [M.bind_eq_ok, addU64_eq_ok] at h
         obtain ⟨l1, ⟨-, rfl⟩, h⟩ := h
         split at h
-        · simp at h
+        · rename_i hcond
+          split at h
+          · simp at h
+          · rename_i hns
+            have hnone : checkNoSampled lastN c f last.number lnc = none := by
+              cases hc : checkNoSampled lastN c f last.number lnc with
+              | none => rfl
+              | some code => exact absurd hc (hns code)
+            simp only [M.pure_eq_ok, Except.ok.injEq, Prod.mk.injEq] at h
+            obtain ⟨rfl, rfl, rfl⟩ := h
+            exact ⟨rfl, rfl, rfl, hlast', fun _ _ => .inr ⟨f, hf, hnone⟩, fun h => absurd rfl h⟩
         · rename_i hcond
           simp only [M.pure_eq_ok, Except.ok.injEq, Prod.mk.injEq] at h
           obtain ⟨rfl, rfl, rfl⟩ := h
           refine ⟨rfl, rfl, rfl, hlast', ?_, fun h => absurd rfl h⟩
           intro _ _
           simp only [Bool.or_eq_true, decide_eq_true_eq, not_or, ne_eq, Decidable.not_not] at hcond
+          left
           simp [hf, hcond.1]
       · simp [bind, Except.bind] at h
     · rename_i hpos
@@ -954,7 +986,7 @@ theorem cmMid_inv {lastN : Nat} {c : ReqContent} {headers : List VH} {last : VH}
     (h : cmMid lastN c headers last reorg = .ok (.ok (r, sc, ln))) :
     cmShape lastN c headers reorg = .ok (.ok (sc, ln)) ∧
     (sc ≠ 0 → ∃ f, headers[headers.length - ln]? = some f ∧ f.ptd < c.boundary) ∧
-    cmTail c headers last reorg sc ln = .ok (.ok (r, sc, ln)) := by
+    cmTail lastN c headers last reorg sc ln = .ok (.ok (r, sc, ln)) := by
   unfold cmMid at h
   simp only [M.bind_eq_ok] at h
   obtain ⟨shape, hshape, h⟩ := h
